@@ -205,14 +205,21 @@ pub fn lookups(v: &Value) -> String {
                         .map(|e| format!("{}={}", hex_str(e.key.as_str()), value_str(&e.value)))
                         .collect();
                     let idx: Vec<String> = obj.indexes_of(k).map(|i| i.to_string()).collect();
+                    // the lookup iterators behave the same under skip / nth / step_by / last / count
+                    let styles = styles_agree(&|| obj.get(k), &|v| v as *const Value)
+                        && styles_agree(&|| obj.get_entries(k), &|e| e as *const json_syntax::object::Entry)
+                        && styles_agree(&|| obj.get_with_index(k), &|(i, v)| (i, v as *const Value))
+                        && styles_agree(&|| obj.get_entries_with_index(k), &|(i, e)| (i, e as *const json_syntax::object::Entry))
+                        && styles_agree(&|| obj.indexes_of(k), &|i| i);
                     let uniq = match obj.get_unique(k) {
                         Ok(None) => "none".to_string(),
                         Ok(Some(v)) => format!("one {}", value_str(v)),
                         Err(d) => format!("dup {} {}", value_str(&d.0.value), value_str(&d.1.value)),
                     };
                     out.push_str(&format!(
-                        "<{} c={} i={:?} r={:?} ix=[{}] g=[{}] e=[{}] u={}>",
+                        "<{}{} c={} i={:?} r={:?} ix=[{}] g=[{}] e=[{}] u={}>",
                         hex_str(k),
+                        if styles { "" } else { " ITERATOR-STYLES-DISAGREE" },
                         obj.contains_key(k) as u8,
                         obj.index_of(k),
                         obj.redundant_index_of(k),
@@ -239,7 +246,19 @@ pub fn eval_c05(line: &str) -> String {
     guarded(move || match parse_case(&line) {
         Some((o, i)) => {
             let show = |r: &R| match r {
-                Ok((v, cm)) => format!("OK {} T{}", codemap_str(cm), v.traverse().count()),
+                Ok((v, cm)) => {
+                    // the traversal's fragment kinds, in order (entry i of the map is fragment i of this walk)
+                    let kinds: String = v
+                        .traverse()
+                        .map(|(_, f)| match f {
+                            json_syntax::FragmentRef::Value(_) => 'v',
+                            json_syntax::FragmentRef::Entry(_) => 'e',
+                            json_syntax::FragmentRef::Key(_) => 'k',
+                        })
+                        .collect();
+                    let idx_ok = v.traverse().enumerate().all(|(n, (i, _))| n == i);
+                    format!("OK {} T{} K{}{}", codemap_str(cm), v.traverse().count(), kinds, if idx_ok { "" } else { "!" })
+                }
                 Err(_) => "ERR".into(),
             };
             (match &i {
